@@ -106,7 +106,10 @@ class Builder:
         method_name = f"build_{sexpression.command}"
         if not hasattr(self, method_name):
             raise JaqalError(f"Cannot handle object of type {sexpression.command}")
-        return getattr(self, method_name)(sexpression, context, gate_context)
+        try:
+            return getattr(self, method_name)(sexpression, context, gate_context)
+        except RecursionError:
+            raise JaqalError("Program is nested too deeply to build") from None
 
     def make_context(self):
         """Return a context dictionary consisting of elements given in the constructor."""
